@@ -153,12 +153,18 @@ def make_visit(evs_by_label, depth_bytes=2):
           d = tempfile.mkdtemp(prefix='verif_c12_')
           try:
             a._result.save(d, 'm')
-            c = L.quantizer.Quantizer(os.path.join(d, 'm.tflite')
-                                      if False else model,
-                                      os.path.join(d, 'm_recipe.json'))
+            c = L.quantizer.Quantizer(model, os.path.join(d, 'm_recipe.json'))
             rc = _quant(c, cal)
             if rc != ra:
               out.append(_f('bytes_differ_after_save', f'[{sub}]', sub))
+            # the float model given as a file path instead of bytes
+            fp = os.path.join(d, 'float.tflite')
+            with open(fp, 'wb') as fh:
+              fh.write(model)
+            c = L.quantizer.Quantizer(fp, os.path.join(d, 'm_recipe.json'))
+            rc = _quant(c, cal)
+            if rc != ra:
+              out.append(_f('bytes_differ_model_from_path', f'[{sub}]', sub))
           except Exception as e:  # pylint: disable=broad-except
             out.append(_f('saved_recipe_unusable',
                           f'[{sub}]: {type(e).__name__}: {e}'[:300], sub))
